@@ -32,6 +32,9 @@ impl Reader {
         let len = meta.len();
         drop(meta);
 
+        #[cfg(feature = "verif")]
+        crate::verif::point("reader:after_meta_snapshot");
+
         // SAFETY: Transmute extends the guard lifetime to 'static. This is safe
         // because `_db` (the Arc) outlives `mmap` (the guard) — see struct field order.
         let mmap: RwLockReadGuard<'static, MmapMut> = unsafe { std::mem::transmute(db.mmap()) };
@@ -51,6 +54,10 @@ impl Reader {
     pub fn unchecked_read(&self, offset: usize, len: usize) -> &[u8] {
         let start = self.start() + offset;
         let end = start + len;
+        #[cfg(feature = "verif")]
+        if end <= self.mmap.len() {
+            crate::verif::access(self.mmap[start..end].as_ptr(), len, "Reader::unchecked_read");
+        }
         &self.mmap[start..end]
     }
 
@@ -73,6 +80,18 @@ impl Reader {
     #[inline(always)]
     pub fn is_empty(&self) -> bool {
         self.len() == 0
+    }
+
+    /// Region this reader was created from.
+    #[cfg(feature = "verif")]
+    pub fn verif_region(&self) -> &Region {
+        &self._region
+    }
+
+    /// Absolute data-file offset of the reader's snapshot start.
+    #[cfg(feature = "verif")]
+    pub fn verif_start(&self) -> usize {
+        self.start
     }
 
     #[inline(always)]
